@@ -49,6 +49,9 @@ fn main() {
         .stack_size(256 << 20)
         .build_global()
         .expect("rayon pool");
+    if args[1].starts_with('C') {
+        sut::start_watchdog();
+    }
     let code = match args[1].as_str() {
         "replay" => checks::replay::run(&args[2]),
         "bench" => {
